@@ -194,7 +194,8 @@ def get_atom_lines_from_pdb(
         if tag in tags:
             alt_conf_tag = line[16]
             residue_name = line[12: 16]
-            residue_number = line[22: 26]
+            # chain, residue number and insertion code identify the residue
+            residue_number = line[21: 27]
             # check if we want this residue
             if line[17: 20] in ignore_residues:
                 continue
